@@ -96,9 +96,13 @@ def c07Read (x : AgInfo) (p c : AgD) (res : String) (cap : Nat) : Verdicts × Li
     ((if res != want then [("C07", s!"Read into a buffer of {cap} bytes returned {res}; the next accepted datagram has {n} bytes (expected {want})")] else []) ++
      vCount, rest)
 
+/-- the receive buffer of an agent holds at most this many bytes, 2 per datagram included (`maxBufferSize`) -/
+def rxLimitBytes : Nat := 1000000
+
 /-- per-pair counters of the pair that stays selected across the op.
-`sent` / `recv`: payload (len > 0) accepted for sending over that pair / accepted inbound in this op; `none` = not judged -/
-def c07Counters (p c : AgD) (sent : Option (Option Nat)) (recv : Option (Option Nat)) : Verdicts :=
+`sent` / `recv`: (packets, payload bytes) with len > 0 accepted for sending over that pair / accepted inbound in this
+op; `none` = not judged -/
+def c07Counters (p c : AgD) (sent : Option (Option Nat)) (recv : Option (Nat × Nat)) : Verdicts :=
   match p.sel, c.sel with
   | some i, some j =>
     if i != j then [] else
@@ -112,11 +116,31 @@ def c07Counters (p c : AgD) (sent : Option (Option Nat)) (recv : Option (Option 
          else [("C07", s!"selected pair {i}: sent counters moved by {q.pktSent - o.pktSent} packets / {q.bytesSent - o.bytesSent} bytes, accepted for sending: {dp} / {db}")]) ++
       (match recv with
        | none => []
-       | some r =>
-         let (dp, db) := match r with | some n => (1, n) | none => (0, 0)
+       | some (dp, db) =>
          if q.pktRecv == o.pktRecv + dp && q.bytesRecv == o.bytesRecv + db then []
          else [("C07", s!"selected pair {i}: receive counters moved by {q.pktRecv - o.pktRecv} packets / {q.bytesRecv - o.bytesRecv} bytes, accepted inbound: {dp} / {db}")])
     | _, _ => []
   | _, _ => []
+
+/-- The drain epoch (judged from the implementation's outputs alone — what the reads return — plus the documented
+size of the receive buffer).  While one pair stays selected since a moment at which the reader queue was empty:
+(bound, every line) its received counters have not moved by more than what `Read` has consumed since plus what the
+buffer can still hold; (drain, when a `read` answers `empty`) they have moved by EXACTLY the datagrams / payload bytes
+the reads consumed — a datagram dropped because the buffer was full is counted nowhere.
+Returns the verdicts; `rdPk`/`rdBy` are the epoch's read tallies including this op's read. -/
+def c07Epoch (x : AgInfo) (c : AgD) (drained : Bool) (rdPk rdBy : Nat) : Verdicts :=
+  if !x.epOk || x.closed then [] else
+  if c.sel != some x.epSel then [] else
+  match findPairId c x.epSel with
+  | none => []
+  | some q =>
+    let dPk := q.pktRecv - x.epPkt0
+    let dBy := q.bytesRecv - x.epByte0
+    if drained then
+      if dPk == rdPk && dBy == rdBy && q.pktRecv ≥ x.epPkt0 && q.bytesRecv ≥ x.epByte0 then []
+      else [("C07", s!"selected pair {x.epSel}: since the reader queue was last empty its receive counters moved by {dPk} packets / {dBy} bytes, but the reads that drained the queue returned {rdPk} datagrams / {rdBy} bytes (a datagram that never reached the reader was counted on the pair, or one that did was not)")]
+    else if dBy > rdBy + rxLimitBytes || dPk > rdPk + rxLimitBytes / 2 then
+      [("C07", s!"selected pair {x.epSel}: since the reader queue was last empty its receive counters moved by {dPk} packets / {dBy} bytes, more than the {rdBy} bytes Read has returned plus the {rxLimitBytes} bytes the receive buffer can hold")]
+    else []
 
 end IceSpec.AgentMon
